@@ -85,15 +85,16 @@ def r1_r3(ctx):
         ok = False
         found = "re-queue not guarded by the retry budget"
         for t in drain.tests(lambda e: True):
+            texp = drain.expand(t.ast, t, keep={var})  # a local that holds entry.retries_remaining reads as that field
             for label in ("true", "false"):
-                o = cmp_oriented(t.ast, lambda l: _entry_attr(l, var, "retries_remaining"), truth=(label == "true"))
+                o = cmp_oriented(texp, lambda l: _entry_attr(l, var, "retries_remaining"), truth=(label == "true"))
                 pos = None
                 if o is not None:
                     c = ctx.repo.try_fold(m, o[2])
                     if isinstance(c, int):
                         pos = (o[1] == "!=" and c == 0) or (o[1] == ">" and c >= 0) or (o[1] == ">=" and c >= 1)
                         desc = f"{var}.retries_remaining {o[1]} {c}"
-                elif _entry_attr(t.ast, var, "retries_remaining"):
+                elif _entry_attr(texp, var, "retries_remaining"):
                     pos = label == "true"
                     desc = f"bool({var}.retries_remaining) is {label}"
                 if pos is None:
